@@ -42,6 +42,8 @@ RULE = ("seeded scripts as in C15 with values drawn from 50 per-operator values;
         "sub-communicator from MPI_Comm_split (split 0: parity of the on-node index, 1: parity of the node / halves), script ranks and "
         "destinations >= its size issue nothing; twin: two adapters (and targets) of the same type alive at once, key k belongs to "
         "pair (k >> 20) >= J, each with its own fold and model replay; "
+        "rswapk/rswapr: two batches of reductions into map A with A.swap(B) in between (adapter kept / re-created), second batch = "
+        "the first batch's keys in the opposite order; mask / environment / cyclic placement / wide (4800 keys) as in C15; "
         "rbkbag2: reduce_by_key_map over a bag built on a second ygm::comm over the same ranks, inserts issued right before the call, "
         "no barrier; non-trivial = a contribution was issued while the rank was inside a flush's send, or a value was combined at an intermediate rank")
 M64 = 1 << 64
@@ -83,7 +85,9 @@ def make_cases(tier, seed):
     for i in range(nrun):
         nodes, ppn = LAYOUTS[i % len(LAYOUTS)]
         target = "rarr" if i % 3 == 2 else "rmap"
-        if i % 5 == 4:
+        if i % 13 == 7:    # wide: thousands of keys, so that a flush-all is long and values routed through a rank arrive during it
+            bases, J, nops, hot = list(range(0, 2400)), 2, 150, 0
+        elif i % 5 == 4:
             bases, J, nops, hot = [0, 3, 5, 9, 77, 1000, 1048575], 2, 24, 20
         elif i % 5 == 3:
             bases, J, nops, hot = [5, 6], 3, 36, 50
@@ -113,14 +117,22 @@ def make_cases(tier, seed):
                       "hot": 70, "hpct": 0, "fwdpct": 0, "vmax": 50, "routing": ROUTINGS[g.below(3)], "buffer_kb": [16384, 1024][i % 2],   # default-sized buffers: with tiny ones a rank spins in the bag's communicator while its peer waits in cm.barrier() (two communicators do not service each other)
                       "policy": POLICIES[g.below(5)], "sim_seed": 1 + g.below(1 << 20), "mode": "rbkbag2",
                       "op": [0, 3, 4, 1][i % 4]})
+    # reductions into map A, A.swap(B), reductions into A again — the second batch repeats the first batch's keys in the
+    # opposite order (ascending, then descending), so that on every owner the first key after the swap is the last one before
+    for i in range(4 if tier == "quick" else 16):
+        nodes, ppn = LAYOUTS[(i + 2) % len(LAYOUTS)]
+        cases.append({"script_seed": g.next() % (1 << 31), "nodes": nodes, "ppn": ppn, "phases": 2, "nops": 6 + 6 * (i % 3), "bases": [5] if i % 4 < 2 else [5, 77], "J": 1 if i % 4 < 2 else 2,
+                      "hot": 60, "hpct": 0, "fwdpct": 0, "vmax": 50, "routing": ROUTINGS[g.below(3)], "buffer_kb": [0, 1, 16384][i % 3],
+                      "policy": POLICIES[g.below(5)], "sim_seed": 1 + g.below(1 << 20), "mode": "rswapk" if i % 2 == 0 else "rswapr",
+                      "op": [0, 3, 4, 2][i % 4], "swap_script": 1})
     c15.add_dimensions(cases, g)
     for c in cases:
-        if c["mode"] in ("rbkvec", "rbkbag", "rbkbag2"):
+        if c["mode"] in ("rbkvec", "rbkbag", "rbkbag2", "rswapk", "rswapr"):
             c["twin"] = 0           # reduce_by_key_map creates its own map and adapter
         if c["mode"] == "rarr":
             if c["twin"]:
                 c["J"] = min(c["J"], 2)
-            c["len"] = (2 if c["twin"] else 1) * c["J"] * S + 2000
+            c["len"] = (2 if c["twin"] else 1) * c["J"] * S + 4000
     return cases
 
 
@@ -214,8 +226,13 @@ def judge_reduce(res, case, view, c, ncont, ops, model_ok, per_rank, owner):
                     elif owner.get(k) != r:
                         mismatch = mismatch or {"relation": "container operations are issued by the owner only", "what": f"rank {r} key {k}"}
             if hopq:
-                hops = C.model("reduce", [f"hop {view['ppn']} {r} {owner[k]}" for (r, k, v) in hopq])
-                sent = sorted((int(h), k, v) for h, (r, k, v) in zip(hops, hopq))
+                # the model's next hop is stated for a block placement: translate communicator ranks through the
+                # (node, on-node index) coordinates the layout gives them (identity for block placement)
+                p_ = view["ppn"]
+                blk = [nd * p_ + lc for (nd, lc) in view["coords"]]
+                inv = {b: cr for cr, b in enumerate(blk)}
+                hops = C.model("reduce", [f"hop {p_} {blk[r]} {blk[owner[k]]}" for (r, k, v) in hopq])
+                sent = sorted((inv.get(int(h), -1), k, v) for h, (r, k, v) in zip(hops, hopq))
             recv = sorted((r, k, v) for r in range(g) for (k, v) in per_rank[r][1]["delivered_kv"][c])
             if mismatch is None and sent != recv:
                 extra = [x for x in recv if x not in sent][:3]
@@ -227,6 +244,38 @@ def judge_reduce(res, case, view, c, ncont, ops, model_ok, per_rank, owner):
                 pp = [c15.parse_model(a) for a in C.model("reduce", pl)]
                 pinned_explains = all(p["ok"] for p in pp) and all(p["stored"] == real_by_rank[r] for r, p in enumerate(pp))
     return fails, mismatch, pinned_explains, final
+
+
+def judge_swap(res, case, view, ops, owner):
+    """reductions into map A, A.swap(B), reductions into A: A ends with the fold of the second batch, B with the fold of
+    the first (the swap moves A's entries — its "previous values" — to B; nothing of the second batch may follow them)"""
+    g = len(view["members"])
+    op = case["op"]
+    contrib = c15.contributions(ops, g)
+    want = []
+    for ph in (1, 0):
+        by = {}
+        for (p, k, v) in contrib:
+            if p == ph:
+                by.setdefault(k, []).append(v)
+        want.append({k: fold(op, vs) for k, vs in by.items()})
+    outs = {r: c15.outs_by_tag(view["outs"].get(r, [])) for r in range(g)}
+    for which, name in ((0, "A (reduced into, swapped, reduced into again)"), (1, "B (holds A's entries from before the swap)")):
+        real = {}
+        for r in range(g):
+            rows = outs[r].get("kv", [])
+            for k, (v, gk) in kv3(rows[which] if which < len(rows) else []).items():
+                real[k] = v
+                if owner.get(k) != r or gk != k:
+                    res.oracle_failures.append({"what": c15.where(view, 0, 1) + f"map {name}: key {k} on rank {r} (owner {owner.get(k)}), ghost key {gk}",
+                                                "signature": "reducing_adapter-swap-misplaced", "case": dict(case, failed_on=view["name"])})
+                    return
+        if real != want[which]:
+            bad = {k: (real.get(k), want[which].get(k)) for k in set(real) | set(want[which]) if real.get(k) != want[which].get(k)}
+            res.oracle_failures.append({"what": c15.where(view, 0, 1) + f"map {name} != per-key fold of the batch it must hold",
+                                        "signature": "reducing_adapter-swap-fold-mismatch",
+                                        "case": dict(case, failed_on=view["name"], detail={"key: (real, expected)": dict(list(bad.items())[:10])})})
+            return
 
 
 def check_reduce(res, case, sr, universe, ops, model_ok):
@@ -246,6 +295,7 @@ def check_reduce(res, case, sr, universe, ops, model_ok):
     res.count(f"routing-{case['routing']}")
     res.count(f"policy-{case['policy']}")
     res.count(f"subcomm-{['none', 'sub-then-world', 'world-then-sub'][case.get('subcomm', 0)]}")
+    c15.env_counts(res, case)
     if ncont > 1:
         res.count("two-adapters-at-once")
     nontrivial = False
@@ -257,7 +307,12 @@ def check_reduce(res, case, sr, universe, ops, model_ok):
             continue
         owner = {int(w[0]): int(w[1]) for w in c15.outs_by_tag(view["outs"].get(0, [])).get("own", [])}
         nested_same, per_rank, stats = 0, None, None
+        if mode in ("rswapk", "rswapr"):
+            judge_swap(res, case, view, ops, owner)
+            nontrivial = True
+            continue
         if mode in ("rmap", "rarr"):
+            c15.check_masks(res, case, view, sig_base, mode)
             per_rank = [c15.tokens(view["events"][r], me=r, owner=owner, cid=cid, ncont=ncont) for r in range(g)]
             for r in range(g):     # harness-issued contributions per container
                 cnt = [0] * ncont
